@@ -376,6 +376,11 @@ def check_library(ctx, cases):
         status, real, model, line = r[:4]
         if status != 0:
             ctx.cov["rejected_patterns"] = ctx.cov.get("rejected_patterns", 0) + 1
+            if status != 1:
+                # 1 = the pattern was rejected; anything else means the real searcher could not run the case at all
+                ctx.violation("the harness could not run a generated case on the real searcher (status %d)" % status,
+                              dict(kind=1001, case=line, pattern=c["pattern"], flags=c["flags"],
+                                   files=[(repr(p_), repr(d)) for p_, d in c["files"]]), nfi=True)
             continue
         if not r[5]:
             # the searcher kept delivering events after a refusal (property C16, defect D7): the printer models
@@ -658,6 +663,10 @@ def corpus():
         # a multi-line match whose last assertion looks past the reported lines, near and far from the end of input
         mk(r"foo\n\b", U, [b"xx foo\nbar\n", b"xx foo\nbar\n" + b"z z\n" * 40, b"foo\n"]),
         mk(r"(?m)a\n^", U, [b"a\nb", b"a\n" + b"y" * 130 + b"\n"]),
+        # ... where the NEXT line (beyond the reported range, in the searcher's buffer) decides the assertion
+        mk(r"foo\n\b", U, [b"xx foo\nbar\nfoo\n bar\nfoo\nbaz\n" + b"q\n" * 80, b"foo\n-\nfoo\nx\n"]),
+        mk(r"a\n\B", U, [b"a\n b\na\nb\n", b"a\nb\n" + b"z" * 200 + b"\n"]),
+        mk(r"b\n$", U, [b"b\n\nb\nx\n"]),
         # DOS line ends searched without --crlf: the \r is line content for searcher and printers alike
         mk("bar.", L, [b"foo bar\r\nbaz\r\nbar\r\n", b"bar\n"]),
         mk(r"\w+\r", L, [b"ab\r\ncd\r\n"]),
